@@ -76,13 +76,16 @@ _REENT_OPS = (
     lambda: _SMALL_SPEC.flatten_up_to(_SMALL),
     lambda: _SMALL_SPEC.broadcast_to_common_suffix(_SMALL_SPEC),
     lambda: _SMALL_SPEC.accessors(),
+    lambda: _SMALL_SPEC.traverse(_SMALL_LEAVES, lambda n_: n_, lambda x: x),
+    lambda: _SMALL_SPEC.walk(_SMALL_LEAVES, lambda t_, d_, ch: ch, lambda x: x),
+    lambda: optree.tree_transpose_map(lambda x: (x, x), _SMALL),
 )
 
 
 def _reentrant_hook(site, obj):
     """Harness callbacks the engine reaches (predicates, custom flatten / unflatten functions) call back into optree - user code does that
     (the FlatCache pattern): every third callback runs one small operation, rotating through flatten, unflatten, hash / repr / paths, map, iter,
-    transform, flatten_up_to, broadcast, accessors."""
+    transform, flatten_up_to, broadcast, accessors, traverse, walk, transpose_map."""
     _TICKS[0] += 1
     if _REENT[0] or _TICKS[0] % 3:
         return
